@@ -164,7 +164,7 @@ void adfTime2AmigaTime ( struct DateTime dt,
     /* previous months days downto january */
     if (dt.mon>1) {                      /* if previous month exists */
         dt.mon--;
-        if (dt.mon>2 && adfIsLeap(dt.year))    /* months after a leap february */
+        if (dt.mon>1 && adfIsLeap(dt.year+1900))    /* months after a leap february */
             jm[2-1]=29;
         while(dt.mon>0) {
             *day=*day+jm[dt.mon-1];
@@ -176,7 +176,7 @@ void adfTime2AmigaTime ( struct DateTime dt,
     if (dt.year>78) {
         dt.year--;
         while(dt.year>=78) {
-            if (adfIsLeap(dt.year))
+            if (adfIsLeap(dt.year+1900))
                 *day=*day+366;
             else
                 *day=*day+365;
